@@ -25,8 +25,10 @@ def t0():
     return T0
 
 
-def mk(T, P, scale=1):
+def mk(T, P, scale=1, div=None):
     import tk
+    if div:          # decimal unit: the model's integers divided by div (correctly rounded decimal numbers, as a file holds them)
+        return tk.mk_track([p[0] / float(div) for p in P], [p[1] / float(div) for p in P], [p[2] for p in P], [t / 2.0 for t in T])
     return tk.mk_track([p[0] * scale for p in P], [p[1] * scale for p in P], [p[2] for p in P], [t / 2.0 for t in T])
 
 
@@ -95,7 +97,7 @@ def call_temporal(T, P, kind, arg, api):
     return e
 
 
-def call_spatial(T, P, ds2, scale=1):
+def call_spatial(T, P, ds2, scale=1, div=None):
     """scale = 1/2: the real track is the model's polyline in HALF units (planimetry and step halved - exact -, the answer
     scaled back): the property does not depend on the unit, and a track with whole East coordinates and half-unit North
     coordinates has legs of non-integer rational length"""
@@ -112,16 +114,18 @@ def call_spatial(T, P, ds2, scale=1):
                 k = 1 + (sum(T) % (len(P) - 1))
                 P2 = list(P[:k]) + [[P[k - 1][0] + 7, P[k - 1][1] - 5, 3]] + list(P[k:])
                 T2 = list(T[:k]) + [(T[k - 1] + T[k]) / 2.0] + list(T[k:])
-                tr = mk(T2, P2, scale)
+                tr = mk(T2, P2, scale, div)
                 computeAbsCurv(tr)
                 tr.removeObs(k)
             else:
-                tr = mk(T, P, scale)
-            if scale == 1:
+                tr = mk(T, P, scale, div)
+            if div:
+                tr.resample(delta=ds2 / (2.0 * div), mode=1)
+            elif scale == 1:
                 tr.resample(delta=(ds2 // 2 if ds2 % 2 == 0 else ds2 / 2.0), mode=1)
             else:
                 tr.resample(delta=ds2 / 2.0 * scale, mode=1)
-        e["out"], e["lat"] = rows(tr, maxden, 1 if scale == 1 else 1.0 / scale)
+        e["out"], e["lat"] = rows(tr, maxden, div if div else (1 if scale == 1 else 1.0 / scale))
     except (Exception, SystemExit) as ex:
         e["raised"] = True
         e["exc"] = repr(ex)[:80]
@@ -202,6 +206,23 @@ def job_family(args):
 
 LEGS = [(0, 0), (1, 0), (2, 0), (0, 3), (3, 4), (-4, 3), (0, -1), (6, 8)]
 LEGS_HALF = [(0, 0), (2, 0), (0, 3), (0, 1), (4, 3), (-4, 3), (0, -1), (12, 5), (8, -15)]       # in half units, dx even
+
+
+def job_decimal(args):
+    """spatial resampling with DECIMAL steps (0.1 ... 1.4) that do and do not divide the length of a track given in decimal
+    coordinates: model in twentieths (integers), real values = model / 20 (correctly rounded decimals)"""
+    out = []
+    T = [0, 20, 40, 50]
+    for L in range(1, 8):
+        for leg in (0, 1):
+            # straight along x, or with a 3-4-5 leg first (lengths in twentieths: 20 L in all)
+            if leg and L >= 2:
+                P = [(0, 0, 0), (12, 16, 1), (12 + 10 * (L - 1), 16, 2), (12 + 20 * (L - 1), 16, 0)]
+            else:
+                P = [(0, 0, 0), (10 * L, 0, 1), (15 * L, 0, 2), (20 * L, 0, 0)]
+            for ds in (2, 3, 4, 6, 8, 12, 14, 28):          # steps 0.1, 0.15, 0.2, 0.3, 0.4, 0.6, 0.7, 1.4 (in twentieths here; ds2 = twice that)
+                out.append(call_spatial(T, P, 2 * ds, div=20))
+    return out
 
 
 def job_random(args):
@@ -285,6 +306,7 @@ def run(ctx):
             jobs.append((job_family, (n, g0)))
     for k in range(32):
         jobs.append((job_random, (ctx.seed * 61 + k, 40 if quick else 1200)))
+    jobs.append((job_decimal, None))
     events = []
     with mp.get_context("fork").Pool(16, initializer=core._pool_init, initargs=(None,)) as pool:
         res = [pool.apply_async(f, (a,)) for f, a in jobs]
